@@ -164,120 +164,3 @@ Proof.
   split; [reflexivity|]. eapply err_gives_input_back; exact E.
 Qed.
 
-(* ---- BoxBytes: the impl methods as translated are the modelled ones ---- *)
-Lemma gen_box_bytes_of_sized ENV T c : Gen.Alloc.box_bytes_of_sized ENV T c = Ret (box_bytes_of_sized T c).
-Proof. reflexivity. Qed.
-Lemma gen_box_bytes_of_slice ENV T c : Gen.Alloc.box_bytes_of_slice ENV T c = Ret (box_bytes_of_slice T c).
-Proof. reflexivity. Qed.
-Lemma gen_try_from_box_bytes_sized ENV T b :
-  Gen.Alloc.try_from_box_bytes_sized ENV T b = Ret (try_from_box_bytes_sized T b).
-Proof. unfold Gen.Alloc.try_from_box_bytes_sized, try_from_box_bytes_sized. refine_eq. Qed.
-Lemma gen_try_from_box_bytes_slice ENV T b :
-  Gen.Alloc.try_from_box_bytes_slice ENV T b = Ret (try_from_box_bytes_slice T b).
-Proof. unfold Gen.Alloc.try_from_box_bytes_slice, try_from_box_bytes_slice. refine_eq. Qed.
-(* Drop: the one dealloc call, with the block's own pointer and the recorded layout *)
-Lemma gen_box_bytes_drop ENV b :
-  Gen.Alloc.box_bytes_drop ENV b = Ret (match bb_drop b with Some l => Some (bb_ptr b, l) | None => None end).
-Proof. unfold Gen.Alloc.box_bytes_drop, bb_drop. refine_eq. Qed.
-
-(* ---- the zero-initialising allocators: the translated functions are the modelled decision
-   (Model/Alloc.v's zres) for the allocator answer the environment gives ---- *)
-Definition alloc_ok (E : env) (l : layout) : bool := negb (alloc_zeroed_m E l =? 0).
-(* what the caller holds for a modelled result *)
-Definition zres_value (E : env) (r : zres) : result cont unit :=
-  match r with
-  | ZOkNoAlloc len cap => Ok (mkCont DANGLING len cap)
-  | ZOkAlloc l len cap => Ok (mkCont (alloc_zeroed_m E l) len cap)
-  | ZErrLayout => Err tt
-  | ZErrNull _ => Err tt
-  end.
-(* the allocator answer that matters for a slice request *)
-Definition slice_alloc_ok (E : env) (T : ty) (n : N) : bool :=
-  match layout_array T n with Some l => alloc_ok E l | None => true end.
-
-Lemma layout_array_m_spec T n :
-  layout_array_m T n = match layout_array T n with Some l => Ok l | None => Err tt end.
-Proof. unfold layout_array_m, layout_array. destruct (n * sz T <=? ISIZE_MAX - (al T - 1)); reflexivity. Qed.
-
-Lemma gen_try_zeroed_box E T :
-  Gen.Alloc.try_zeroed_box E T = Ret (zres_value E (try_zeroed_box T (alloc_ok E (mkLayout (sz T) (al T))))).
-Proof.
-  unfold Gen.Alloc.try_zeroed_box, try_zeroed_box, alloc_ok.
-  repeat (red_bind; split_if); red_bind; b2p; try reflexivity; try (exfalso; congruence); try (exfalso; lia).
-Qed.
-
-Lemma gen_try_zeroed_slice_box E T n :
-  Gen.Alloc.try_zeroed_slice_box E T n = Ret (zres_value E (try_zeroed_slice_box T n (slice_alloc_ok E T n))).
-Proof.
-  unfold Gen.Alloc.try_zeroed_slice_box, try_zeroed_slice_box, slice_alloc_ok, alloc_ok.
-  rewrite layout_array_m_spec. destruct (layout_array T n) as [l|];
-  repeat (red_bind; split_if); red_bind; b2p; try reflexivity; try (exfalso; congruence); try (exfalso; lia).
-Qed.
-
-Lemma gen_try_zeroed_vec E T n :
-  Gen.Alloc.try_zeroed_vec E T n = Ret (zres_value E (try_zeroed_vec T n (slice_alloc_ok E T n))).
-Proof.
-  unfold Gen.Alloc.try_zeroed_vec, try_zeroed_vec. destruct (n =? 0) eqn:Hn; [reflexivity|].
-  rewrite gen_try_zeroed_slice_box. cbn [bind].
-  destruct (try_zeroed_slice_box T n (slice_alloc_ok E T n)) as [len cap|l len cap| |l] eqn:Hr; try reflexivity.
-  (* allocated: elements of non-zero size, capacity = length *)
-  unfold try_zeroed_slice_box in Hr. rewrite Hn, orb_false_r in Hr.
-  destruct (sz T =? 0) eqn:HT; [discriminate|]. cbn in Hr.
-  destruct (layout_array T n); [destruct (slice_alloc_ok E T n)|]; inversion Hr; subst.
-  cbn [zres_value]. unfold box_into_vec. cbn [cptr clen]. rewrite HT. reflexivity.
-Qed.
-
-(* the panicking forms: unwrap *)
-Definition unwrap_unit (r : result cont unit) : outcome cont :=
-  match r with Ok c => Ret c | Err _ => Panic (W_unwrap EUnit) end.
-Lemma gen_zeroed_box E T : Gen.Alloc.zeroed_box E T = (r <- Gen.Alloc.try_zeroed_box E T ;; unwrap_unit r).
-Proof. reflexivity. Qed.
-Lemma gen_zeroed_slice_box E T n : Gen.Alloc.zeroed_slice_box E T n = (r <- Gen.Alloc.try_zeroed_slice_box E T n ;; unwrap_unit r).
-Proof. reflexivity. Qed.
-Lemma gen_zeroed_vec E T n : Gen.Alloc.zeroed_vec E T n = (r <- Gen.Alloc.try_zeroed_vec E T n ;; unwrap_unit r).
-Proof. reflexivity. Qed.
-
-(* never a panic, never UB, whatever the allocator answers and however large the request *)
-Theorem gen_try_zeroed_total E T n :
-  (exists r, Gen.Alloc.try_zeroed_box E T = Ret r) /\
-  (exists r, Gen.Alloc.try_zeroed_slice_box E T n = Ret r) /\
-  (exists r, Gen.Alloc.try_zeroed_vec E T n = Ret r).
-Proof.
-  rewrite gen_try_zeroed_box, gen_try_zeroed_slice_box, gen_try_zeroed_vec. repeat split; eexists; reflexivity.
-Qed.
-
-Theorem gen_box_bytes_all ENV T c b :
-  Gen.Alloc.box_bytes_of_sized ENV T c = Ret (box_bytes_of_sized T c) /\
-  Gen.Alloc.box_bytes_of_slice ENV T c = Ret (box_bytes_of_slice T c) /\
-  Gen.Alloc.try_from_box_bytes_sized ENV T b = Ret (try_from_box_bytes_sized T b) /\
-  Gen.Alloc.try_from_box_bytes_slice ENV T b = Ret (try_from_box_bytes_slice T b) /\
-  Gen.Alloc.box_bytes_drop ENV b = Ret (match bb_drop b with Some l => Some (bb_ptr b, l) | None => None end).
-Proof.
-  exact (conj (gen_box_bytes_of_sized ENV T c) (conj (gen_box_bytes_of_slice ENV T c)
-        (conj (gen_try_from_box_bytes_sized ENV T b) (conj (gen_try_from_box_bytes_slice ENV T b) (gen_box_bytes_drop ENV b))))).
-Qed.
-Theorem gen_box_bytes_drop_exact ENV b :
-  Gen.Alloc.box_bytes_drop ENV b = Ret (if l_size (bb_layout b) =? 0 then None else Some (bb_ptr b, bb_layout b)).
-Proof. rewrite gen_box_bytes_drop. unfold bb_drop. destruct (l_size (bb_layout b) =? 0); reflexivity. Qed.
-
-Theorem gen_zeroed_all E T n :
-  Gen.Alloc.try_zeroed_box E T = Ret (zres_value E (try_zeroed_box T (alloc_ok E (mkLayout (sz T) (al T))))) /\
-  Gen.Alloc.try_zeroed_slice_box E T n = Ret (zres_value E (try_zeroed_slice_box T n (slice_alloc_ok E T n))) /\
-  Gen.Alloc.try_zeroed_vec E T n = Ret (zres_value E (try_zeroed_vec T n (slice_alloc_ok E T n))).
-Proof. exact (conj (gen_try_zeroed_box E T) (conj (gen_try_zeroed_slice_box E T n) (gen_try_zeroed_vec E T n))). Qed.
-Theorem gen_zeroed_unwrap_all E T n :
-  Gen.Alloc.zeroed_box E T = (r <- Gen.Alloc.try_zeroed_box E T ;; unwrap_unit r) /\
-  Gen.Alloc.zeroed_slice_box E T n = (r <- Gen.Alloc.try_zeroed_slice_box E T n ;; unwrap_unit r) /\
-  Gen.Alloc.zeroed_vec E T n = (r <- Gen.Alloc.try_zeroed_vec E T n ;; unwrap_unit r).
-Proof. exact (conj (gen_zeroed_box E T) (conj (gen_zeroed_slice_box E T n) (gen_zeroed_vec E T n))). Qed.
-
-(* Deref / DerefMut expose exactly the recorded number of bytes at the block's own address; the raw
-   parts are the pointer and the layout, and putting them back together gives the same BoxBytes *)
-Theorem gen_box_bytes_views ENV b p l :
-  Gen.Alloc.box_bytes_deref ENV b = Ret (mkSlice (mkPtr (bb_ptr b) (l_size (bb_layout b))) (l_size (bb_layout b))) /\
-  Gen.Alloc.box_bytes_deref_mut ENV b = Ret (mkSlice (mkPtr (bb_ptr b) (l_size (bb_layout b))) (l_size (bb_layout b))) /\
-  Gen.Alloc.box_bytes_layout ENV b = Ret (bb_layout b) /\
-  Gen.Alloc.box_bytes_into_raw_parts ENV b = Ret (bb_ptr b, bb_layout b) /\
-  Gen.Alloc.box_bytes_from_raw_parts ENV p l = Ret (mkBB p l) /\
-  (x <- Gen.Alloc.box_bytes_into_raw_parts ENV b ;; Gen.Alloc.box_bytes_from_raw_parts ENV (fst x) (snd x)) = Ret b.
-Proof. destruct b as [bp bl]. repeat split; reflexivity. Qed.
